@@ -106,6 +106,11 @@ pub fn plan(args: &Args) -> Plan {
             }
         }
     }
+    if args.get("inject").is_some() {
+        // sensitivity self-test: one input carrying the marker the worker misbehaves on
+        lex.insert(3, ("inject_marker".into(), format!("module {MARKER} {{}}\n")));
+        lex.insert(40, ("inject_marker_bad_syntax".into(), format!("module {MARKER} {{\n")));
+    }
     Plan { seed, n_rand, paths, lex }
 }
 
@@ -648,7 +653,7 @@ pub fn main(args: Args) {
                         );
                     }
                 }
-                Outcome::CpuTimeout { stage, cpu_s } => run2.inconclusive(format!("replay: CPU budget exceeded in {stage} after {cpu_s:.0}s")),
+                Outcome::CpuTimeout { stage, cpu_s, .. } => run2.inconclusive(format!("replay: CPU budget exceeded in {stage} after {cpu_s:.0}s")),
                 Outcome::WallTimeout { .. } => run2.inconclusive("replay: wall watchdog".into()),
                 Outcome::Done(_) => {}
             }
@@ -747,9 +752,11 @@ pub fn main(args: Args) {
             run2.eval();
             sus2.lock().unwrap().push(Suspect { i, what: "died", death: Some(kind), signal, stage, stderr });
         }
-        Outcome::CpuTimeout { stage, cpu_s } => {
+        Outcome::CpuTimeout { cpu_s, info, .. } => {
             run2.eval();
-            sus2.lock().unwrap().push(Suspect { i, what: "cpu_timeout", death: None, signal: None, stage: json!({"stage": stage, "cpu_s": cpu_s}), stderr: String::new() });
+            let mut st = info.clone();
+            st["cpu_s"] = json!(cpu_s);
+            sus2.lock().unwrap().push(Suspect { i, what: "cpu_timeout", death: None, signal: None, stage: st, stderr: String::new() });
         }
         Outcome::WallTimeout { stage } => {
             run2.eval();
